@@ -3,8 +3,14 @@
 # Included by /verif/Makefile.
 
 REPO ?= /repo
-SRC  := $(REPO)/src/libsodium
 B    ?= build
+
+# Sources are compiled from a content-synchronised mirror of $(REPO)/src/libsodium, refreshed on every
+# make invocation (rsync --checksum: a file is re-copied, and so gets a new mtime, exactly when its
+# CONTENT changed).  This makes "rebuild what changed" independent of the mtimes in /repo, which a
+# patch tool, `cp -p`, a tar extraction or a checkout may set to anything.
+SRC  := $(B)/srcmirror
+MIRROR_LOG := $(shell mkdir -p $(SRC) && rsync -rc --delete --prune-empty-dirs --include='*/' --include='*.c' --include='*.h' --include='*.S' --include='*.in' --exclude='*' $(REPO)/src/libsodium/ $(SRC)/ 2>&1 && cmp -s $(REPO)/configure.ac $(B)/configure.ac.mirror || cp $(REPO)/configure.ac $(B)/configure.ac.mirror)
 
 include mk/defs.mk
 
@@ -17,9 +23,9 @@ SODIUM_WARN := -w
 SODIUM_CFLAGS_COMMON := -pthread -fno-strict-aliasing -fno-strict-overflow -fno-omit-frame-pointer $(SODIUM_WARN)
 
 # version.h is a configure output (untracked in /repo); generate our own copy.
-$(B)/gen/sodium/version.h: $(SRC)/include/sodium/version.h.in $(REPO)/configure.ac
+$(B)/gen/sodium/version.h: $(SRC)/include/sodium/version.h.in $(B)/configure.ac.mirror
 	@mkdir -p $(dir $@)
-	@python3 mk/gen_version.py $(REPO) > $@.tmp && mv $@.tmp $@
+	@python3 mk/gen_version.py $(B)/configure.ac.mirror $(SRC)/include/sodium/version.h.in > $@.tmp && mv $@.tmp $@
 
 # $(1)=variant name  $(2)=compiler  $(3)=cflags  $(4)=defs
 define SODIUM_VARIANT
